@@ -285,6 +285,24 @@ def correspond(ctx, gen_ok):
             if back is not None:
                 cases.append((f'(CRound {kt} {wterm} {ut} {vt})', f'(OData (Some {clist([cz(x) for x in S.exact_ints(back)])}))',
                               ('round', rect, info)))
+                # aliasing: fromlocal returns NEW data for C-ordered, F-ordered input and for tolocal() itself (a view of
+                # coo.data); changing either side afterwards must not change the other
+                for nm, arr in (('tolocal()', L), ('C-ordered copy', np.ascontiguousarray(L)), ('F-ordered copy', np.asfortranarray(np.array(L)))):
+                    if arr.size == 0:
+                        continue
+                    r = coo.fromlocal(arr)
+                    d0, c0 = r.data.copy(), coo.data.copy()
+                    shared = np.shares_memory(r.data, arr) or np.shares_memory(r.data, coo.data)
+                    arr[...] += 1.0
+                    changed = not np.array_equal(r.data, d0)
+                    arr[...] -= 1.0
+                    r.data[...] += 1.0
+                    changed2 = not np.array_equal(coo.data, c0) and not (nm == 'tolocal()' and False)
+                    ctx.count(('alias', nm, info), nontrivial=True)
+                    if shared or changed or changed2:
+                        ctx.fail('coo:fromlocal-aliases-input', f'COOData.fromlocal({nm}) shares memory with its input / the original data: '
+                                 'an in-place change of one side changes the other', dict(info, input=nm, shares_memory=bool(shared),
+                                                                                         result_changed_with_input=bool(changed), original_changed_with_result=bool(changed2)))
                 if not np.array_equal(back, coo.data):
                     ctx.fail('stub:fromlocal-tolocal', 'fromlocal(tolocal(c)).data differs from c.data',
                              dict(info, got=np.asarray(back).tolist(), expected=coo.data.tolist()))
@@ -297,6 +315,13 @@ def correspond(ctx, gen_ok):
         if s is not None:
             cases.append((f'(CAdd {kt} {clist([cz(x) for x in k2])} {wterm} {ut} {vt} {S.coq_basis(ub2.tables)} {S.coq_basis(vb2.tables)})',
                           f'(OCoo (Some {_coo_term(s)}))', ('add', True, info)))
+            c0 = coo.data.copy()
+            sdat = s.data
+            if sdat.size:
+                sdat[...] += 1.0
+                if np.shares_memory(sdat, coo.data) or not np.array_equal(coo.data, c0):
+                    ctx.fail('coo:add-aliases-operand', 'the sum of two COOData shares its data with an operand', info)
+                sdat[...] -= 1.0
             if s.local_shape is not None:
                 ctx.fail('stub:add-local-shape', 'the sum of two COOData keeps a local shape', info)
         # asm over lists of bases (product), same global sizes
